@@ -741,7 +741,7 @@ func (w *World) checkSafeWarranted(n string, t *txTrack, i int, delay int64) {
 			continue // a confirmed double spend removed it from tracking: it is not a known conflict any more
 		}
 		for _, a := range w.arrivals[b] {
-			if a.kind == "tx" && a.at < at && (a.src == "local" || a.ready) && a.nodeGen == t.gens[i] {
+			if a.kind == "tx" && a.at+w.slack < at && (a.src == "local" || a.ready) && a.nodeGen == t.gens[i] {
 				w.fail("C07", "safe-needs-no-conflict", "safe although a conflicting tx is known", fmt.Sprintf("tx %s reported safe at %d ms although conflicting tx %s reached the node at %d ms", n, at/1e6, b, a.at/1e6))
 			}
 		}
@@ -855,14 +855,14 @@ func (w *World) oracleRequests() {
 	for n, rs := range reqs {
 		sort.Slice(rs, func(i, j int) bool { return rs[i].at < rs[j].at })
 		for i := 1; i < len(rs); i++ {
-			if rs[i].at-rs[i-1].at < int64(3*time.Second) && !w.restartBetween(rs[i-1].at, rs[i].at) && !w.confirmedBetween(n, rs[i-1].at, rs[i].at) {
+			if rs[i].at-rs[i-1].at < int64(3*time.Second)-w.slack && !w.restartBetween(rs[i-1].at, rs[i].at) && !w.confirmedBetween(n, rs[i-1].at, rs[i].at) {
 				w.fail("C14", "one-request-per-window", fmt.Sprintf("second request after %d ms (%s then %s)", (rs[i].at-rs[i-1].at)/1e6/500*500, srcClass(rs[i-1].src), srcClass(rs[i].src)),
 					fmt.Sprintf("tx %s requested from %s at %d ms and from %s at %d ms", n, rs[i-1].src, rs[i-1].at/1e6, rs[i].src, rs[i].at/1e6))
 			}
 		}
 		if fb, ok := w.firstBody(n); ok && fb.ready {
 			for _, r := range rs {
-				if r.at > fb.at && !w.restartBetween(fb.at, r.at) && w.stayedReady(fb.at) && !w.confirmedBetween(n, fb.at, r.at) {
+				if r.at > fb.at+w.slack && !w.restartBetween(fb.at, r.at) && w.stayedReady(fb.at) && !w.confirmedBetween(n, fb.at, r.at) {
 					w.fail("C14", "no-request-after-body", "requested after the body arrived", fmt.Sprintf("tx %s body arrived at %d ms, requested again from %s at %d ms", n, fb.at/1e6, r.src, r.at/1e6))
 				}
 			}
@@ -875,7 +875,7 @@ func (w *World) oracleRequests() {
 				}
 			}
 			for _, r := range rs {
-				if processedAt >= 0 && r.at > processedAt && !w.announcedBetween(n, processedAt, r.at) {
+				if processedAt >= 0 && r.at > processedAt+w.slack && !w.announcedBetween(n, processedAt, r.at) {
 					w.fail("C14", "confirmed-forgotten", "requested after its block was processed", fmt.Sprintf("tx %s confirmed in block processed at %d ms, requested from %s at %d ms", n, processedAt/1e6, r.src, r.at/1e6))
 				}
 			}
